@@ -51,6 +51,25 @@ Section glue.
       apply init_core.
   Qed.
 
+  (** a store of the classname does not read or write the name index, nor the targetname: the two last statements of
+      the worldspawn replacement may stand in either order *)
+  Lemma set_item_cn_upd_target f e v st :
+    (set_item fold e cn v (upd_target f st)).1 = upd_target f (set_item fold e cn v st).1.
+  Proof.
+    unfold set_item. rewrite fold_cn. rewrite (decide_True (P := cn = cn)) by done.
+    change (keys_of (upd_target f st) e) with (keys_of st e). change (ents (upd_target f st)) with (ents st).
+    change (spawn (upd_target f st)) with (spawn st).
+    repeat case_decide; try congruence; reflexivity.
+  Qed.
+  Lemma set_item_cn_tgt e v st : tgt_of fold (set_item fold e cn v st).1 e = tgt_of fold st e.
+  Proof.
+    assert (Hk : ∀ v l, tgt_of_keys fold (kv_set fold cn v l) = tgt_of_keys fold l).
+    { intros v' l. unfold tgt_of_keys. rewrite kv_find_set_ne; [done|]. rewrite fold_cn. done. }
+    unfold set_item. rewrite fold_cn. rewrite (decide_True (P := cn = cn)) by done.
+    unfold tgt_of. repeat case_decide; cbn [fst]; unfold keys_of, with_keys, upd_class; cbn [objs];
+      rewrite ?lookup_insert; cbn [default]; unfold id; rewrite ?Hk; try done.
+  Qed.
+
   (** ** VMF.parse: the worldspawn replacement *)
   Theorem parse_spawn_pg_ok l keys c st : parse_spawn_ok l = true →
     g_run fold l (GE keys c) st = replace_spawn fold keys st.
@@ -62,9 +81,13 @@ Section glue.
       apply orb_true_iff in H1 as [H1|H1]; apply andb_true_iff in H1 as [Ha Hb]; try done;
       try apply bool_decide_eq_true in Ha; try apply bool_decide_eq_true in Hb; simplify_eq;
       unfold g_run, replace_spawn;
-      match goal with |- context [GSetItem ?a _ _ :: GAddTarget (GTCur ?b) ?c :: _] => destruct a, b, c end;
+      match goal with
+      | |- context [GSetItem ?a _ _ :: GAddTarget (GTCur ?b) ?c :: _] => destruct a, b, c
+      | |- context [GAddTarget (GTCur ?b) ?c :: GSetItem ?a _ _ :: _] => destruct a, b, c
+      end;
       cbn [g_steps g_step g_ref g_tk g_src g_keys spawn objs nobj ents by_class by_target upd_class upd_target];
-      rewrite ?(proj1 (set_item_frame fold _ _ _ _)); cbn [spawn]; reflexivity.
+      rewrite ?set_item_cn_upd_target, ?set_item_cn_tgt;
+      rewrite ?(proj1 (set_item_frame fold _ _ _ _)); cbn [spawn]; rewrite ?set_item_cn_tgt; reflexivity.
   Qed.
 
   (** the entity loop of parse and VMF.create_ent *)
